@@ -25,6 +25,17 @@ Theorem C09_no_abort : forall eps t rs, 0 < eps ->
   exists p, policy_vector_Q eps t rs = Some p /\ length p = length rs.
 Proof. exact C09_Policy.no_abort. Qed.
 Print Assumptions C09_no_abort.
+Example C09_no_abort_hyp :
+  0 < 1 # 1000 /\ [5; -1; 3] <> [] /\
+  policy_vector_Q (1 # 1000) 4 [5; -1; 3] = Some [80000 # 128064; 16000 # 32016000; 48000 # 128064].
+Proof. exact C09_Examples.ex_hyp_basic. Qed.
+(* ... and with the code's own floor POLICY_MIN = 2^-126, on a fresh profile (t = 0) *)
+Example C09_no_abort_policy_min :
+  policy_vector_Q (fconst_Q POLICY_MIN) 0 [5; -1] =
+  Some [425352958651173079329218259289710264320 # 425352958651173079329218259289710264321;
+        85070591730234615865843651857942052864
+        # 36185027886661311069865932815214971204231940799742910878196338654330795065344].
+Proof. exact C09_Examples.ex_fixed_value_policy_min. Qed.
 
 (* the result is a probability distribution with full support *)
 Theorem C09_distribution : forall eps t rs p, 0 < eps -> rs <> [] ->
@@ -32,6 +43,11 @@ Theorem C09_distribution : forall eps t rs p, 0 < eps -> rs <> [] ->
   Forall (fun x => 0 < x /\ x <= 1) p /\ fold_left Qplus p 0 == 1.
 Proof. exact C09_Policy.distribution. Qed.
 Print Assumptions C09_distribution.
+(* hypotheses satisfiable (eps = 1/1000, t = 0, rs = [5; -1]; also C09_no_abort_hyp above) *)
+Example C09_distribution_hyp :
+  exists p, policy_vector_Q (1 # 1000) 0 [5; -1] = Some p /\
+    Forall (fun x => 0 < x /\ x <= 1) p /\ fold_left Qplus p 0 == 1.
+Proof. exact C09_Examples.ex_fixed_is_distribution. Qed.
 
 (* entry a is max(R_a / max(t,1), eps) / sum_b max(R_b / max(t,1), eps) *)
 Theorem C09_formula : forall eps t rs p a, 0 < eps ->
@@ -39,6 +55,15 @@ Theorem C09_formula : forall eps t rs p a, 0 < eps ->
   nth a p 0 == floored eps t (nth a rs 0) / qsum (floored_vec eps t rs).
 Proof. exact C09_Policy.formula. Qed.
 Print Assumptions C09_formula.
+(* hypotheses satisfiable (the same run as C09_no_abort_hyp, entry a = 2); also for C09_formula_vec *)
+Example C09_formula_hyp :
+  0 < 1 # 1000 /\
+  policy_vector_Q (1 # 1000) 4 [5; -1; 3] = Some [80000 # 128064; 16000 # 32016000; 48000 # 128064] /\
+  (2 < length ([5; -1; 3]%Q))%nat.
+Proof.
+  exact (conj (proj1 C09_Examples.ex_hyp_basic)
+           (conj (proj2 (proj2 C09_Examples.ex_hyp_basic)) (le_n 3))).
+Qed.
 
 (* the same, as a Leibniz equality of vectors *)
 Theorem C09_formula_vec : forall eps t rs p, 0 < eps ->
@@ -54,6 +79,17 @@ Theorem C09_uniform : forall eps t rs p a, 0 < eps ->
   nth a p 0 == 1 # Pos.of_nat (length rs).
 Proof. exact C09_Policy.uniform. Qed.
 Print Assumptions C09_uniform.
+(* hypotheses of C09_uniform and C09_uniform_no_positive are satisfiable: no positive regret ... *)
+Example C09_uniform_hyp :
+  (forall r, In r [-3; 0; -1] -> cum_regret 0 r <= 1 # 1000) /\
+  (forall r, In r [-3; 0; -1] -> r <= 0) /\
+  policy_vector_Q (1 # 1000) 0 [-3; 0; -1] =
+    Some [1000000000 # 3000000000; 1000000000 # 3000000000; 1000000000 # 3000000000].
+Proof. exact C09_Examples.ex_hyp_uniform. Qed.
+(* ... and a positive regret below the floor is covered by C09_uniform too (2/4 <= 1/2) *)
+Example C09_uniform_hyp_small_positive :
+  forall r, In r [2; -1] -> cum_regret 4 r <= 1 # 2.
+Proof. exact C09_Examples.ex_hyp_uniform_small_positive. Qed.
 
 (* in particular when no regret is positive; this is regret_matching's uniform case *)
 Theorem C09_uniform_no_positive : forall eps t rs p a, 0 < eps ->
@@ -81,6 +117,15 @@ Theorem C09_proportional : forall eps t rs p a, 0 < eps ->
     <= qlen rs * eps / qsum (pos_vec t rs).
 Proof. exact C09_Policy.proportional. Qed.
 Print Assumptions C09_proportional.
+(* hypotheses of C09_proportional, C09_regret_matching_nth, C09_close_to_regret_matching and
+   C09_limit_regret_matching are satisfiable (with the run of C09_no_abort_hyp); the bound there
+   is n * eps / X = 3 * (1/1000) / 2 = 3/2000 *)
+Example C09_proportional_hyp :
+  0 < qsum (pos_vec 4 [5; -1; 3]) /\ (exists r, In r [5; -1; 3] /\ 0 < r).
+Proof. exact C09_Examples.ex_hyp_proportional. Qed.
+Example C09_proportional_bound :
+  qlen [5; -1; 3] * (1 # 1000) / qsum (pos_vec 4 [5; -1; 3]) == 3 # 2000.
+Proof. exact C09_Examples.ex_proportional_bound. Qed.
 
 (* x_a / X is the textbook regret-matching entry (the epoch normalisation cancels) *)
 Theorem C09_regret_matching_nth : forall t rs a,
@@ -103,12 +148,18 @@ Theorem C09_limit_regret_matching : forall t rs, (exists r, In r rs /\ 0 < r) ->
     forall a, (a < length rs)%nat -> nth a p 0 == nth a (regret_matching rs) 0.
 Proof. exact C09_Policy.limit_regret_matching. Qed.
 Print Assumptions C09_limit_regret_matching.
+Example C09_limit_regret_matching_value :
+  policy_vector_Q 0 4 [5; -1; 3] = Some [80 # 128; 0 # 32; 48 # 128] /\
+  regret_matching [5; -1; 3] = [5 # 8; 0 # 8; 3 # 8].
+Proof. exact C09_Examples.ex_limit_value. Qed.
 
 (* the epoch normalisation cancels in the unfloored ratios (any positive divisors) *)
 Theorem C09_scale_invariant : forall d1 d2 r rs, 0 < d1 -> 0 < d2 ->
   (r / d1) / qsum (map (fun b => b / d1) rs) == (r / d2) / qsum (map (fun b => b / d2) rs).
 Proof. exact C09_Policy.scale_invariant. Qed.
 Print Assumptions C09_scale_invariant.
+Example C09_scale_invariant_hyp : 0 < inject_Z 3 /\ 0 < inject_Z 7.
+Proof. exact C09_Examples.ex_scale. Qed.
 
 Theorem C09_scale_invariant_pos : forall d1 d2 r rs, 0 < d1 -> 0 < d2 ->
   qpos (r / d1) / qsum (map (fun b => qpos (b / d1)) rs) ==
@@ -151,6 +202,10 @@ Theorem C09_fix_conservative : forall eps t rs, (1 <= t)%Z ->
   policy_vector_with_Q false eps t rs = policy_vector_Q eps t rs.
 Proof. exact C09_Policy.fix_conservative. Qed.
 Print Assumptions C09_fix_conservative.
+Example C09_fix_conservative_hyp :
+  (1 <= 4)%Z /\
+  policy_vector_with_Q false (1 # 1000) 4 [5; -1; 3] = policy_vector_Q (1 # 1000) 4 [5; -1; 3].
+Proof. split; [discriminate | exact C09_Examples.ex_fix_conservative]. Qed.
 
 Theorem C09_fix_conservative_t0 : forall eps rs a, 0 < eps -> (forall r, In r rs -> r <= 0) ->
   (a < length rs)%nat ->
@@ -158,11 +213,19 @@ Theorem C09_fix_conservative_t0 : forall eps rs a, 0 < eps -> (forall r, In r rs
     nth a p 0 == nth a q 0.
 Proof. exact C09_Policy.fix_conservative_t0. Qed.
 Print Assumptions C09_fix_conservative_t0.
+Example C09_fix_conservative_t0_hyp :
+  policy_vector_with_Q false (1 # 1000) 0 [-5; -1] = Some [1000000 # 2000000; 1000000 # 2000000].
+Proof. exact C09_Examples.ex_unfixed_no_positive. Qed.
 
 (* the floor applied to the recorded regrets (regret_vector: r.max(REGRET_MIN)) *)
 Theorem C09_clamp : forall lo r, lo <= clamp lo r /\ (lo <= r -> clamp lo r == r).
 Proof. exact (fun lo r => conj (C09_Policy.clamp_ge lo r) (C09_Policy.clamp_id lo r)). Qed.
 Print Assumptions C09_clamp.
+(* with the generated REGRET_MIN = -3e5 *)
+Example C09_clamp_example :
+  clamp (fconst_Q REGRET_MIN) (-400000 # 1) = -300000 # 1 /\
+  clamp (fconst_Q REGRET_MIN) 7 = 7 /\ fconst_Q REGRET_MIN <= 7.
+Proof. exact C09_Examples.ex_clamp. Qed.
 
 (* ---------------------------------------------------------------------------------------------
    The same function in binary32 (Model/PolicyF32.v: Flocq binary_float 24 128, round to nearest
@@ -176,6 +239,10 @@ From Coq Require Import Reals.
 From Flocq Require Import Core.Core IEEE754.BinarySingleNaN.
 From RP Require Import Model.BetF32 Model.PolicyF32.
 From RP Require Proofs.C09_F32.
+
+(* two concrete binary32 values used in the examples: f32::MAX and the least subnormal 2^-149 *)
+Definition C09_f32_max : f32 := @B754_finite prec emax false 16777215 104 eq_refl.
+Definition C09_f32_tiny : f32 := @B754_finite prec emax false 1 (-149) eq_refl.
 
 (* the model's floor is the generated POLICY_MIN = f32::MIN_POSITIVE = 2^-126 *)
 Theorem C09_f32_policy_min :
@@ -199,6 +266,25 @@ Theorem C09_f32_no_abort : forall t stored, (0 <= t < 2 ^ 64)%Z ->
   (forall r, In r stored -> r <> pos_inf) -> policy_aborts t stored = false.
 Proof. exact C09_F32.no_abort. Qed.
 Print Assumptions C09_f32_no_abort.
+(* hypotheses of C09_f32_no_abort / C09_f32_entries_unit / C09_f32_entries_ok are satisfiable:
+   5 epochs, stored regrets [3; -inf; NaN; -2] ... *)
+Example C09_f32_no_abort_hyp :
+  (0 <= 5 < 2 ^ 64)%Z /\
+  forall r, In r [of_usize 3; B754_infinity true; B754_nan; of_usize (-2)] -> r <> pos_inf.
+Proof. exact C09_F32.ex_no_abort_hyp. Qed.
+(* ... the result is [1.0; q; q; q] with q = 2^-126 / 0.6 (a subnormal), no abort *)
+Example C09_f32_no_abort_run :
+  map (@B2SF prec emax) (policy_f32 5 [of_usize 3; B754_infinity true; B754_nan; of_usize (-2)]) =
+    [SpecFloat.S754_finite false 8388608 (-23); SpecFloat.S754_finite false 13981013 (-149);
+     SpecFloat.S754_finite false 13981013 (-149); SpecFloat.S754_finite false 13981013 (-149)] /\
+  policy_aborts 5 [of_usize 3; B754_infinity true; B754_nan; of_usize (-2)] = false.
+Proof. exact C09_F32.ex_mixed. Qed.
+(* corners: t = 0, t = 2^64 - 1, subnormal (2^-149), negative zero, f32::MAX, -inf, the empty list *)
+Example C09_f32_no_abort_corners :
+  policy_aborts 0 [C09_f32_tiny; B754_zero true; C09_f32_max] = false /\
+  policy_aborts (2 ^ 64 - 1) [C09_f32_tiny; B754_zero true; C09_f32_max; B754_infinity true] = false /\
+  policy_f32 7 [] = [] /\ policy_aborts 7 [] = false.
+Proof. exact C09_F32.ex_corners. Qed.
 
 (* ... every entry is a finite binary32 number in [0, 1] ... *)
 Theorem C09_f32_entries_unit : forall t stored, (0 <= t < 2 ^ 64)%Z ->
@@ -221,6 +307,12 @@ Theorem C09_f32_aborts_on_infinite_regret : forall t stored, (0 <= t < 2 ^ 64)%Z
   In pos_inf stored -> policy_aborts t stored = true.
 Proof. exact C09_F32.aborts_on_infinite_regret. Qed.
 Print Assumptions C09_f32_aborts_on_infinite_regret.
+Example C09_f32_aborts_on_infinite_regret_hyp :
+  map (@B2SF prec emax) (policy_f32 5 [of_usize 3; pos_inf; of_usize (-2)]) =
+    [SpecFloat.S754_zero false; SpecFloat.S754_nan; SpecFloat.S754_zero false] /\
+  policy_aborts 5 [of_usize 3; pos_inf; of_usize (-2)] = true /\
+  In pos_inf [of_usize 3; pos_inf; of_usize (-2)].
+Proof. exact C09_F32.ex_infinite. Qed.
 
 Theorem C09_f32_infinite_regret_gives_nan : forall t stored, (0 <= t < 2 ^ 64)%Z ->
   In pos_inf stored -> In B754_nan (policy_f32 t stored).
@@ -240,6 +332,12 @@ Theorem C09_f32_unfixed_aborts_iff : forall stored,
   exists r, In r stored /\ (r = pos_inf \/ (is_finite r = true /\ (0 < B2R r)%R)).
 Proof. exact C09_F32.unfixed_t0_aborts_iff. Qed.
 Print Assumptions C09_f32_unfixed_aborts_iff.
+(* ... and without a positive regret the original code does not abort at t = 0 either *)
+Example C09_f32_unfixed_no_positive :
+  policy_aborts_gen false 0 [of_usize (-3); of_usize 0; B754_zero true; B754_infinity true; B754_nan] = false /\
+  map (@B2SF prec emax) (policy_f32_gen false 0 [of_usize (-3); of_usize 0]) =
+    [SpecFloat.S754_finite false 8388608 (-24); SpecFloat.S754_finite false 8388608 (-24)].
+Proof. exact C09_F32.ex_unfixed_no_positive. Qed.
 
 (* concrete witness that the flag matters: t = 0 and the single stored regret 3.0 (or [5; -1]):
    abort (the entry is NaN) without the fix, [1.0] and no abort with it *)
@@ -287,6 +385,12 @@ Theorem C09_f32_sum_close_first_order_partial : forall t stored, stored <> [] ->
      <= INR (length stored) * bpow radix2 (-23) + INR (length stored) * bpow radix2 (-150))%R.
 Proof. exact C09_F32.sum_close_first_order. Qed.
 Print Assumptions C09_f32_sum_close_first_order_partial.
+(* hypotheses of the two sum theorems are satisfiable (the run of C09_f32_no_abort_run) *)
+Example C09_f32_sum_close_hyp :
+  is_finite (fsum32 (map floored32 (map (cumulated_gen REGRET_DIVISOR_AT_LEAST_ONE 5)
+     [of_usize 3; B754_infinity true; B754_nan; of_usize (-2)]))) = true /\
+  (Z.of_nat (length [of_usize 3; B754_infinity true; B754_nan; of_usize (-2)]) <= 2 ^ 23)%Z.
+Proof. exact C09_F32.ex_sum_finite. Qed.
 
 (* the complementary case: the sum overflows to +infinity, every entry is +0.0 (no abort, but the
    result is not a distribution).  Example: C09_F32.ex_overflow, ex_sum_overflows *)
@@ -296,6 +400,16 @@ Theorem C09_f32_sum_overflow_all_zero : forall t stored, (0 <= t < 2 ^ 64)%Z ->
   Forall (fun p => p = B754_zero false) (policy_f32 t stored).
 Proof. exact C09_F32.sum_overflow_all_zero. Qed.
 Print Assumptions C09_f32_sum_overflow_all_zero.
+Example C09_f32_sum_overflow_hyp :
+  is_finite (fsum32 (map floored32 (map (cumulated_gen REGRET_DIVISOR_AT_LEAST_ONE 1)
+     [C09_f32_max; C09_f32_max; of_usize 7]))) = false /\
+  (forall r, In r [C09_f32_max; C09_f32_max; of_usize 7] -> r <> pos_inf).
+Proof. exact C09_F32.ex_sum_overflows. Qed.
+Example C09_f32_sum_overflow_run :
+  map (@B2SF prec emax) (policy_f32 1 [C09_f32_max; C09_f32_max; of_usize 7]) =
+    [SpecFloat.S754_zero false; SpecFloat.S754_zero false; SpecFloat.S754_zero false] /\
+  policy_aborts 1 [C09_f32_max; C09_f32_max; of_usize 7] = false.
+Proof. exact C09_F32.ex_overflow. Qed.
 
 (* concrete runs of the binary32 model *)
 Theorem C09_f32_examples :
@@ -309,3 +423,136 @@ Theorem C09_f32_examples :
    In pos_inf [of_usize 3; pos_inf; of_usize (-2)]).
 Proof. exact (conj C09_F32.ex_mixed C09_F32.ex_infinite). Qed.
 Print Assumptions C09_f32_examples.
+
+(* ---------------------------------------------------------------------------------------------
+   The tail of Profile::regret_vector in binary32 (Model/RegretF32.v):
+       r.max(REGRET_MIN).min(REGRET_MAX); assert!(!r.is_nan()); assert!(!r.is_infinite())
+     clamp32 x = fmin32 (fmax32 x regret_min) regret_max     (f32::max / f32::min: a NaN operand
+                                                               returns the other operand)
+     regret_asserts_fire x   true iff one of the two assertions fires on clamp32 x
+   and the unclamped accumulation of Memory::add_regret (self.regret *= discount; self.regret += value):
+     accumulate32 acc d v = fadd (fmul acc d) v,  regret_run32 acc [(d_0, v_0); (d_1, v_1); ...]. *)
+From Coq Require Import Qreals.
+From RP Require Import Model.RegretF32.
+From RP Require Proofs.C09_Clamp.
+
+(* the model constants are the generated ones: REGRET_MIN is the literal -300000, exactly
+   representable, so the nearest binary32 is regret_min = -300000.0 (`(-300000) as f32`);
+   REGRET_MAX is f32::MAX = 2^128 - 2^104, the largest finite binary32 *)
+Theorem C09_f32_regret_constants :
+  match REGRET_MIN with
+  | FQ q => round radix2 (SpecFloat.fexp prec emax) ZnearestE (Q2R q) = B2R regret_min /\
+            Q2R q = B2R regret_min
+  | _ => False
+  end /\
+  REGRET_MAX = F32_MAX /\
+  regret_min = of_usize (-300000) /\
+  (forall x : f32, is_finite x = true -> (B2R x <= B2R regret_max)%R).
+Proof. exact C09_Clamp.regret_constants_generated. Qed.
+Print Assumptions C09_f32_regret_constants.
+Theorem C09_f32_regret_constants_values :
+  B2R regret_min = (-300000)%R /\ B2R regret_max = (bpow radix2 128 - bpow radix2 104)%R.
+Proof. exact (conj C09_Clamp.B2R_regret_min C09_Clamp.B2R_regret_max). Qed.
+Print Assumptions C09_f32_regret_constants_values.
+
+(* EVERY binary32 value x (NaN, infinities, signed zeros, subnormals included): the recorded regret
+   is a finite number inside the clamp, neither assertion fires; a finite x inside the range is
+   recorded unchanged, a finite x below it, NaN and -infinity as REGRET_MIN, +infinity as REGRET_MAX
+   (a finite x is never above f32::MAX) *)
+Theorem C09_f32_regret_clamp_total : forall x : f32,
+  is_finite (clamp32 x) = true /\
+  (B2R regret_min <= B2R (clamp32 x) <= B2R regret_max)%R /\
+  regret_asserts_fire x = false /\
+  (is_finite x = true -> (B2R regret_min <= B2R x <= B2R regret_max)%R -> clamp32 x = x) /\
+  (is_finite x = true -> (B2R x < B2R regret_min)%R -> clamp32 x = regret_min) /\
+  (x = B754_nan -> clamp32 x = regret_min) /\
+  (x = B754_infinity true -> clamp32 x = regret_min) /\
+  (x = B754_infinity false -> clamp32 x = regret_max).
+Proof. exact C09_Clamp.clamp32_total. Qed.
+Print Assumptions C09_f32_regret_clamp_total.
+
+(* NaN, -inf, +inf, -0.0, 7, -300001, -299999 (bit patterns sign / mantissa / exponent) *)
+Example C09_f32_regret_clamp_values :
+  map (fun x => @B2SF prec emax (clamp32 x))
+    [B754_nan; B754_infinity true; B754_infinity false; B754_zero true; of_usize 7;
+     of_usize (-300001); of_usize (-299999)] =
+  [SpecFloat.S754_finite true 9600000 (-5); SpecFloat.S754_finite true 9600000 (-5);
+   SpecFloat.S754_finite false 16777215 104; SpecFloat.S754_zero true;
+   SpecFloat.S754_finite false 14680064 (-21);
+   SpecFloat.S754_finite true 9600000 (-5); SpecFloat.S754_finite true 9599968 (-5)].
+Proof. exact C09_Clamp.ex_clamp_values. Qed.
+Print Assumptions C09_f32_regret_clamp_values.
+
+(* KNOWN FINDING.  The clamp bounds each RECORDED regret, not the STORED one: Memory::add_regret
+   accumulates without a clamp, and REGRET_MAX = f32::MAX leaves no headroom.  Witness: a fresh
+   accumulator (+0.0), two successive updates with recorded regret f32::MAX (which the clamp lets
+   through, and which is what an infinite immediate regret is clamped to) and discount 1: the stored
+   regret is +infinity, and then policy_vector aborts at that information set at every later epoch
+   (C09_f32_aborts_iff). *)
+Theorem C09_f32_accumulated_can_overflow :
+  clamp32 pos_inf = regret_max /\ clamp32 regret_max = regret_max /\
+  regret_run32 (B754_zero false) [(f32_one, regret_max)] = regret_max /\
+  regret_run32 (B754_zero false) [(f32_one, regret_max); (f32_one, regret_max)] = pos_inf /\
+  forall (t : Z) (others : list f32), (0 <= t < 2 ^ 64)%Z ->
+    policy_aborts t
+      (regret_run32 (B754_zero false) [(f32_one, regret_max); (f32_one, regret_max)] :: others) = true.
+Proof. exact C09_Clamp.accumulated_can_overflow. Qed.
+Print Assumptions C09_f32_accumulated_can_overflow.
+
+(* a sufficient condition: the accumulator starts finite with magnitude at most B (e.g. +0.0), T
+   updates with finite discount factors in [0, 1] and finite recorded regrets of magnitude at most B,
+   (T + 1) * B < 2^127: the stored regret stays finite.  B is any positive real, T any length.
+   (Rounding is accounted for: with 2^b the power of two next above B, the magnitude after k updates
+   is at most min(k + 1, 2^24) * 2^b, see C09_f32_accumulated_bound.) *)
+Theorem C09_f32_accumulated_finite : forall (B : R) (acc : f32) (dvs : list (f32 * f32)),
+  (0 < B)%R -> is_finite acc = true -> (Rabs (B2R acc) <= B)%R ->
+  Forall (fun dv => is_finite (fst dv) = true /\ (0 <= B2R (fst dv) <= 1)%R /\
+                    is_finite (snd dv) = true /\ (Rabs (B2R (snd dv)) <= B)%R) dvs ->
+  ((INR (length dvs) + 1) * B < bpow radix2 127)%R ->
+  is_finite (regret_run32 acc dvs) = true /\
+  (Rabs (B2R (regret_run32 acc dvs)) < bpow radix2 128)%R.
+Proof. exact C09_Clamp.accumulated_finite. Qed.
+Print Assumptions C09_f32_accumulated_finite.
+
+(* the quantitative form for a power-of-two bound 2^b (b >= -149), n0 = number of updates already
+   absorbed: after T more updates the magnitude is at most min(n0 + T, 2^24) * 2^b.  Up to 2^24
+   updates every bound k * 2^b is representable, so nothing is lost to rounding; from there on
+   2^(b+24) + 2^b is a tie that rounds (to even) back to 2^(b+24): the accumulator stagnates. *)
+Theorem C09_f32_accumulated_bound : forall (b : Z) (dvs : list (f32 * f32)) (n0 : Z) (acc : f32),
+  (-149 <= b)%Z -> (0 <= n0)%Z ->
+  is_finite acc = true -> (Rabs (B2R acc) <= IZR (Z.min n0 (2 ^ 24)) * bpow radix2 b)%R ->
+  Forall (fun dv => is_finite (fst dv) = true /\ (0 <= B2R (fst dv) <= 1)%R /\
+                    is_finite (snd dv) = true /\ (Rabs (B2R (snd dv)) <= bpow radix2 b)%R) dvs ->
+  (IZR (Z.min (n0 + Z.of_nat (length dvs)) (2 ^ 24)) * bpow radix2 b < bpow radix2 128)%R ->
+  is_finite (regret_run32 acc dvs) = true /\
+  (Rabs (B2R (regret_run32 acc dvs))
+     <= IZR (Z.min (n0 + Z.of_nat (length dvs)) (2 ^ 24)) * bpow radix2 b)%R.
+Proof. exact C09_Clamp.accumulated_bound. Qed.
+Print Assumptions C09_f32_accumulated_bound.
+
+(* consequence: recorded regrets of magnitude at most 2^103 never make the stored regret overflow,
+   whatever the number of updates *)
+Theorem C09_f32_accumulated_finite_any_T : forall (acc : f32) (dvs : list (f32 * f32)),
+  is_finite acc = true -> (Rabs (B2R acc) <= bpow radix2 103)%R ->
+  Forall (fun dv => is_finite (fst dv) = true /\ (0 <= B2R (fst dv) <= 1)%R /\
+                    is_finite (snd dv) = true /\ (Rabs (B2R (snd dv)) <= bpow radix2 103)%R) dvs ->
+  is_finite (regret_run32 acc dvs) = true /\
+  (Rabs (B2R (regret_run32 acc dvs)) <= bpow radix2 127)%R.
+Proof. exact C09_Clamp.accumulated_finite_any_T. Qed.
+Print Assumptions C09_f32_accumulated_finite_any_T.
+
+(* the hypotheses are satisfiable: +0.0, then (1, -300000), (0, 250000), (1, -7), B = 300000;
+   the run gives 249993 = 15999552 * 2^-6 *)
+Example C09_f32_accumulated_finite_hyp :
+  C09_Clamp.ex_dvs = [(f32_one, regret_min); (of_usize 0, of_usize 250000); (f32_one, of_usize (-7))] /\
+  (0 < 300000)%R /\ is_finite (B754_zero false : f32) = true /\
+  (Rabs (B2R (B754_zero false : f32)) <= 300000)%R /\
+  Forall (fun dv => is_finite (fst dv) = true /\ (0 <= B2R (fst dv) <= 1)%R /\
+                    is_finite (snd dv) = true /\ (Rabs (B2R (snd dv)) <= 300000)%R) C09_Clamp.ex_dvs /\
+  ((INR (length C09_Clamp.ex_dvs) + 1) * 300000 < bpow radix2 127)%R.
+Proof. exact (conj eq_refl C09_Clamp.ex_accumulated_hyp). Qed.
+Example C09_f32_accumulated_value :
+  @B2SF prec emax (regret_run32 (B754_zero false) C09_Clamp.ex_dvs) =
+  SpecFloat.S754_finite false 15999552 (-6).
+Proof. exact C09_Clamp.ex_accumulated_value. Qed.
+Print Assumptions C09_f32_accumulated_value.
